@@ -870,7 +870,25 @@ func ruleRevalidate(c *RC) *RuleResult {
 			} else {
 				// the construct names roles, not the helper the call happens to sit in: the function the caller serves
 				// (a message handler is named by its kind) and the table the routine re-validates
-				r.fail(c.roleName(cs.Fn)+"->revalidate:"+table, c.Prog.Pos(cs.Node), cs.Fn.Name+" -> "+fn.Name+": "+"the re-validation call cannot verify anything in this state (no header/pre-block can be built): "+f.String())
+				// ... found along the failing chain when the call sits in a helper shared by several handlers
+				role := c.roleName(cs.Fn)
+				if !strings.HasPrefix(role, "handler:") {
+					hs := c.handlers()
+					for _, link := range f.Chain {
+						name := link
+						if i := strings.Index(name, "@"); i >= 0 {
+							name = name[:i]
+						}
+						if g := c.Prog.fn(name); g != nil {
+							for kind, h := range hs {
+								if h == g && !strings.HasPrefix(role, "handler:") {
+									role = "handler:" + kind
+								}
+							}
+						}
+					}
+				}
+				r.fail(role+"->revalidate:"+table, c.Prog.Pos(cs.Node), cs.Fn.Name+" -> "+fn.Name+": "+"the re-validation call cannot verify anything in this state (no header/pre-block can be built): "+f.String())
 			}
 		}
 	}
@@ -965,7 +983,7 @@ func ruleVerifyOnStore(c *RC) *RuleResult {
 				continue
 			}
 			nf++
-			if e.Killed[k.table]&KillNil == 0 {
+			if e.Killed[k.table]&KillNilAny == 0 {
 				bad = "{" + strings.Join(e.Trail, "; ") + "}"
 			}
 		}
